@@ -327,6 +327,8 @@ class SymStr:
 
 def join_any(sep, parts):
     """str.join when some parts are SymStr"""
+    if hasattr(parts, "__pyvc_join__"):
+        return parts.__pyvc_join__(sep)
     parts = list(parts)
     if isinstance(sep, (bytes, bytearray)):
         if all(isinstance(p, (bytes, bytearray)) for p in parts):
